@@ -14,6 +14,7 @@ Require Import Fggs.Model.Semiring Fggs.Model.EReal Fggs.Model.Trop Fggs.Model.S
 Require Import Fggs.Proofs.SolveElim Fggs.Proofs.SolveRefine Fggs.Proofs.SolveCarriers.
 Require Import Fggs.Proofs.SolveBool Fggs.Proofs.SolveLU.
 Require Import Fggs.Model.MultiSolve Fggs.Proofs.MultiMV Fggs.Proofs.SolveBlock Fggs.Proofs.SolveMatInst.
+Require Import Fggs.Proofs.MultiOrder.
 Local Open Scope nat_scope.
 
 (** (A) elimination of the unknowns in ANY order (scalars: solve1 a r = star a * r) yields a
@@ -194,6 +195,19 @@ Theorem C09_matrix_block_elimination_least :
              forall i, In i vs -> vle o N (x i) (y i)).
 Proof. exact (@mat_block_elimination). Qed.
 Print Assumptions C09_matrix_block_elimination_least.
+
+(** the model of _order_nonterminals returns a duplicate-free enumeration of the shape keys --
+    a legitimate elimination order -- whatever order Python iterates its sets in *)
+Theorem C09_order_nonterminals_enumerates :
+  forall iter : list key -> list key,
+    (forall s x, In x (iter s) -> In x s) -> (forall s x, In x s -> In x (iter s)) ->
+    (forall s, NoDup s -> NoDup (iter s)) ->
+  forall keys shape_keys l,
+    NoDup shape_keys -> (forall e, In e keys -> In (snd e) shape_keys) -> keys <> [] ->
+    order_nonterminals_model iter keys shape_keys = Some l ->
+    NoDup l /\ forall x, In x l <-> In x shape_keys.
+Proof. exact order_model_enumerates. Qed.
+Print Assumptions C09_order_nonterminals_enumerates.
 
 (** Finding F2: ViterbiSemiring.star as coded ([tstar_code]: inf for x >= 0).  The faithful
     model still returns a solution ... *)
